@@ -10,6 +10,7 @@ import (
 	"sort"
 	"strconv"
 	"strings"
+	"sync"
 	"time"
 )
 
@@ -131,6 +132,8 @@ func WriteReplay(r ReplayFile) string {
 // Part is one exhaustive sub-check of a property (a driver exploration or a kernel enumeration).
 type Part struct {
 	Name string
+	// Parallel parts may run concurrently with each other (they isolate themselves, e.g. in child processes).
+	Parallel bool
 	// Run executes the part and returns its report.
 	Run func(tier string, known []KnownFinding, deadline time.Time) PartReport
 	// Replay re-runs one recorded path (explorations only).
@@ -196,6 +199,15 @@ func ExplorePart(name string, mk func() (*Env, Driver), depthQuick, depthThoroug
 			for _, v := range r.Violations {
 				cv, ok, why := Confirm(mk, v, 5)
 				if !ok {
+					if HistoryDependentOK {
+						// determinism checks: the same (state, operation) gave different results depending on what the
+						// instance had executed before - a linear replay on a fresh instance cannot show that; the
+						// artefact replays by re-running this (single-worker, hence deterministic) exploration
+						v.Detail += " [observed during the exploration only: the outcome depends on what this application instance executed earlier (sibling branches / rolled-back transactions); replay re-runs the exploration]"
+						v.Path = append([]string{fmt.Sprintf("<re-explore depth=%d>", depth)}, v.Path...)
+						rep.Violations = append(rep.Violations, v)
+						continue
+					}
 					rep.Internal = fmt.Sprintf("violation %s not reproducible: %s (path %v)", v.Sig, why, v.Path)
 					continue
 				}
@@ -204,6 +216,16 @@ func ExplorePart(name string, mk func() (*Env, Driver), depthQuick, depthThoroug
 			return rep
 		},
 		Replay: func(path []string) ([]Finding, error) {
+			if len(path) > 0 && strings.HasPrefix(path[0], "<re-explore depth=") {
+				var depth int
+				fmt.Sscanf(path[0], "<re-explore depth=%d>", &depth)
+				r := Explore(Config{Depth: depth, Workers: 1, TxSeqInCanon: txSeq, MaxViolations: 50}, mk)
+				var fs []Finding
+				for _, v := range r.Violations {
+					fs = append(fs, v.Finding)
+				}
+				return fs, nil
+			}
 			e, d := mk()
 			_, all, err := ReplayPath(e, d, path)
 			var fs []Finding
@@ -214,6 +236,10 @@ func ExplorePart(name string, mk func() (*Env, Driver), depthQuick, depthThoroug
 		},
 	}
 }
+
+// HistoryDependentOK is set by determinism checks (C11): a violation that does not reproduce on a linear
+// replay is then kept (see ExplorePart) instead of being treated as harness nondeterminism.
+var HistoryDependentOK bool
 
 // RunCheck runs all parts of a property, writes evidence and replay files, prints the
 // VIOLATION / KNOWN-FINDING lines and returns the process exit code.
@@ -239,11 +265,35 @@ func RunCheck(property string, level string, assumptions []string, parts []Part)
 	}
 	knownSeen := map[string]Violation{}
 	internal := ""
+	var selected []Part
 	for _, p := range parts {
 		if only != "" && p.Name != only {
 			continue
 		}
-		rep := p.Run(tier, known, deadline)
+		selected = append(selected, p)
+	}
+	results := make([]PartReport, len(selected))
+	sem := make(chan struct{}, 16)
+	var wg sync.WaitGroup
+	for i, p := range selected {
+		if p.Parallel {
+			wg.Add(1)
+			go func(i int, p Part) {
+				defer wg.Done()
+				sem <- struct{}{}
+				results[i] = p.Run(tier, known, deadline)
+				<-sem
+			}(i, p)
+		}
+	}
+	for i, p := range selected {
+		if !p.Parallel {
+			results[i] = p.Run(tier, known, deadline)
+		}
+	}
+	wg.Wait()
+	for i, p := range selected {
+		rep := results[i]
 		rep.Name = p.Name
 		reports = append(reports, rep)
 		for _, v := range rep.Violations {
